@@ -50,11 +50,55 @@ def mon_c01(script, res):
                     return 'change %s -> %s of p%d is not an edge of the documented graph' % (frm, to, who)
             cur[who] = to
         prev = e
-    # the snapshots must be explainable by the notifications: the last snapshot equals the replay when the run ended at a boundary
+    # what the API reports at every boundary: one of the eight states, under its documented name, the state the
+    # process object is in (and, for C02, its pid)
+    msg = _api_view(script, res)
+    if msg:
+        return msg
+    return None
+
+
+STATE_NAMES = {0: 'STOPPED', 10: 'STARTING', 20: 'RUNNING', 30: 'BACKOFF', 40: 'STOPPING', 100: 'EXITED', 200: 'FATAL',
+               1000: 'UNKNOWN'}
+
+
+def _api_view(script, res, pids=False):
+    np_ = len(script['procs'])
+    for k, s in enumerate(res['snaps']):
+        api = s.get('api')
+        if api is None:
+            continue
+        if api and api[0] == 'error':
+            return 'boundary %d: supervisor.getAllProcessInfo raised %s' % (k, api[1])
+        if api and api[0] == 'fault':
+            if s['mood'] >= 1:
+                return 'boundary %d: supervisor.getAllProcessInfo answered fault %s while the daemon is RUNNING' % (k, api[1])
+            continue
+        seen = set()
+        for (group, name, state, statename, pid) in api:
+            if state not in STATE_NAMES:
+                return 'boundary %d: the API reports %s:%s in state %r, which is not one of the eight' % (k, group, name, state)
+            if statename != STATE_NAMES[state]:
+                return 'boundary %d: the API reports %s:%s state %s under the name %r' % (k, group, name, state, statename)
+            if name[:1] == 'p' and name[1:].isdigit():
+                i = int(name[1:])
+            else:
+                continue
+            seen.add(i)
+            if i >= len(s['procs']):
+                continue
+            st, pd = s['procs'][i]
+            if state != st:
+                return 'boundary %d: the API reports p%d as %s while the process is in state %s' % (k, i, statename, st)
+            if pids and pid != pd:
+                return 'boundary %d: the API reports pid %s for p%d whose pid is %s' % (k, pid, i, pd)
     return None
 
 
 def mon_c02(script, res):
+    msg = _api_view(script, res, pids=True)
+    if msg:
+        return msg
     forked = {}
     waited = set()
     for e in _effects(res):
